@@ -4,6 +4,7 @@ import (
 	"encoding/json"
 	"fmt"
 	"testing"
+	"time"
 
 	"github.com/samber/ro"
 	"verifharness/rt"
@@ -54,7 +55,9 @@ func c14MultiRun(t rt.TB, c c14Multi) {
 		rt.Report(t, rt.Failure{Property: "C14", Check: "multi-source-stage", Op: c.Op, Class: class, Msg: msg, Case: c})
 	}
 	var pan any
-	func() {
+	finished := make(chan struct{})
+	go func() {
+		defer close(finished)
 		defer func() { pan = recover() }()
 		pipe := row.Build(obss)
 		if c.Cut == "Take(n) below" {
@@ -77,9 +80,19 @@ func c14MultiRun(t rt.TB, c c14Multi) {
 			sub.Unsubscribe()
 		}
 	}()
+	stuck := false
+	select {
+	case <-finished:
+	case <-time.After(5 * time.Second):
+		stuck = true
+	}
 	desc := fmt.Sprintf("%s(k=%d), %d value(s) per source, then %s (%d)", c.Op, c.K, c.Vals, c.Cut, c.Which)
 	if c.SyncFirst > 0 {
 		desc += fmt.Sprintf(", source %d delivering a first value during its subscription", c.SyncFirst-1)
+	}
+	if stuck {
+		fail("pipeline-deadlocks-on-downstream-termination", fmt.Sprintf("%s: the goroutine driving the sources has not come back after 5s (everything here is synchronous)", desc))
+		return
 	}
 	if pan != nil {
 		fail("panic-escaped", fmt.Sprintf("%s: %v", desc, pan))
